@@ -110,7 +110,7 @@ def gen_body(cs, q, raw, is_bytes, restrict, fmode=False):
             if restrict is not None:
                 piece = 'o'
         elif k == 7 and triple:
-            piece = cs.pick([NL, NL, q[0], q[0] * 2 + 'x', ' ' + NL + ' '])
+            piece = cs.pick([NL, NL, q[0], q[0] * 2 + 'x', ' ' + NL + ' ', NL + '\ufeff', NL + 'é', NL])  # (U+FEFF is a BOM only at the very start of a source)
             if restrict is not None:
                 piece = 'n'
         elif k == 8 and not no_bs:
